@@ -60,7 +60,7 @@ fn main() {
             }
         },
         "cfgprobe" => c16::cfgprobe(&args[2]),
-        "nestprobe" => c05::nestprobe(args[2].parse().unwrap(), &args[3]),
+        "nestprobe" => c05::nestprobe(args[2].parse().unwrap(), &args[3], args.get(4).and_then(|s| s.parse().ok()).unwrap_or(0)),
         "run" => {
             let prop = args[2].clone();
             let ctx = out::Ctx {
